@@ -52,6 +52,72 @@ def _load_loops():
 LOOPS = _load_loops()
 
 
+def _load_json(name):
+    p = os.path.join(os.path.dirname(os.path.dirname(os.path.abspath(__file__))), 'contracts', name)
+    try:
+        with open(p) as f:
+            return json.load(f)
+    except OSError:
+        return {}
+
+
+FILE_SHAS = _load_json('file_shas.json')
+PREFLIGHT_S = int(os.environ.get('PYVC_PREFLIGHT_S', '300'))
+
+
+def _file_sha(repo, rel):
+    import hashlib
+    try:
+        with open(os.path.join(repo, rel), 'rb') as f:
+            return hashlib.sha256(f.read()).hexdigest()[:16]
+    except OSError:
+        return None
+
+
+def _preflight_child(c, repo):
+    try:
+        g = module_globals_for(repo, c.file)
+        Driver(c, repo, g).run()
+    except BaseException:
+        pass          # errors are reported by the real run; the preflight only answers "does it come back?"
+    os._exit(0)
+
+
+def preflight(contracts, repo, budget_s=None):
+    """Symbolic execution asks z3 feasibility questions in-process, and on unusual code z3 can fail to come back (its timeout and even
+    an interrupt are ignored inside some sequence-solver procedures).  For every contract on a file that differs from the recorded
+    baseline (contracts/file_shas.json) the path enumeration is first tried in a forked child with a hard wall-clock budget; a
+    contract whose child has to be killed is not run in-process and is reported as undecided.  Returns {index: reason}."""
+    budget_s = budget_s or PREFLIGHT_S
+    todo = [i for i, c in enumerate(contracts) if FILE_SHAS.get(c.file) != _file_sha(repo, c.file)]
+    bad, running = {}, {}
+    queue = list(todo)
+    t_end = {}
+    while queue or running:
+        while queue and len(running) < 16:
+            i = queue.pop(0)
+            pid = os.fork()
+            if pid == 0:
+                _preflight_child(contracts[i], repo)
+            running[pid] = i
+            t_end[pid] = time.time() + budget_s
+        for pid in list(running):
+            done, _ = os.waitpid(pid, os.WNOHANG)
+            if done:
+                running.pop(pid)
+            elif time.time() > t_end[pid]:
+                try:
+                    os.kill(pid, 9)
+                    os.waitpid(pid, 0)
+                except OSError:
+                    pass
+                i = running.pop(pid)
+                bad[i] = (f'{contracts[i].qualname}: symbolic execution of the changed function did not come back within {budget_s} s '
+                          '(a solver query that ignores its timeout): outside the modelled subset')
+        time.sleep(0.05)
+    return bad
+
+
 def verify(contracts, repo, jobs=16, both=False):
     """returns report dict: functions[], obligations[], counts, undecided reasons"""
     t0 = time.time()
@@ -59,8 +125,14 @@ def verify(contracts, repo, jobs=16, both=False):
     functions = []
     problems = []   # machinery-level reasons for UNDECIDED
     restructured = {}   # qualname -> why a failed obligation of it is a failed proof and not a violation
-    for c in contracts:
+    stuck = preflight(contracts, repo)
+    for ci, c in enumerate(contracts):
         entry = {'file': c.file, 'qualname': c.qualname, 'contract': type(c).__name__, 'props': list(c.props)}
+        if ci in stuck:
+            entry['unsupported'] = [stuck[ci]]
+            problems.append(stuck[ci])
+            functions.append(entry)
+            continue
         try:
             g = module_globals_for(repo, c.file)
             d = Driver(c, repo, g)
@@ -159,6 +231,7 @@ def counter_model(ob, timeout_ms=20000):
     s.set('timeout', timeout_ms)
     s.add(*ob.pc)
     s.add(z3.Not(ob.goal))
-    if s.check() == z3.sat:
+    from .engine import bounded_check
+    if bounded_check(s, timeout_ms) == z3.sat:
         return s.model()
     return None
